@@ -129,3 +129,14 @@ namespace Adb
 open Py
 @[pysimp] theorem Py.add_bytes_bytes (a b : Bytes) : Py.add (.bytes a) (.bytes b) = .ok (.bytes (a ++ b)) := by simp [Py.add, pure, Except.pure]
 end Adb
+
+namespace Adb
+open Py
+@[pysimp] theorem Py.eqV_bytes_bytes (a b : Bytes) : Py.eqV (.bytes a) (.bytes b) = .ok (.bool (a == b)) := by simp [Py.eqV, Py.eq, bind, Except.bind, pure, Except.pure]
+@[pysimp] theorem Py.neV_bytes_bytes (a b : Bytes) : Py.neV (.bytes a) (.bytes b) = .ok (.bool (!(a == b))) := by simp [Py.neV, Py.eq, bind, Except.bind, pure, Except.pure]
+@[pysimp] theorem Py.eqV_none_bytes (b : Bytes) : Py.eqV .none (.bytes b) = .ok (.bool false) := by simp [Py.eqV, Py.eq, bind, Except.bind, pure, Except.pure]
+@[pysimp] theorem Py.isV_bytes_none (b : Bytes) : Py.isV (.bytes b) .none = .ok (.bool false) := by simp [Py.isV, pure, Except.pure]
+@[pysimp] theorem Py.isNotV_bytes_none (b : Bytes) : Py.isNotV (.bytes b) .none = .ok (.bool true) := by simp [Py.isNotV, Py.isV, bind, Except.bind, pure, Except.pure]
+@[pysimp] theorem Py.not_none : Py.not_ .none = .ok (.bool true) := by simp [Py.not_, Py.truthy, bind, Except.bind, pure, Except.pure]
+@[pysimp] theorem Py.not_bytes (b : Bytes) : Py.not_ (.bytes b) = .ok (.bool b.isEmpty) := by simp [Py.not_, Py.truthy, bind, Except.bind, pure, Except.pure]
+end Adb
